@@ -106,8 +106,8 @@ class Suite:
     model = "model_obs"
     oeq = "obs_eqb"
     spec = "spec_ok"
-    kf = "(fun _ => false)"
-    kf_id = None  # id in known_findings.json that the trigger predicate stands for
+    kf = "no_kf"  # Coq term of type case -> N: 0 = no trigger, n = trigger number n
+    kf_ids: dict = {}  # trigger number -> id of the finding in known_findings.json
     corr = ""  # python function(s) this suite corresponds to (named in replay files)
     timeout_s = 10.0
     quick_n = 500
@@ -277,7 +277,7 @@ def run_suite(suite: Suite, cases, tag: str, out: Outcome, known_ids, label="gen
     flags, hits = eval_pairs(suite, pairs, tag)
     out.traces += len(pairs)
     if hits:
-        _bump(out.kf_hits, suite.kf_id or suite.name, hits)
+        _bump(out.kf_hits, suite.name, hits)
     if len(out.samples) < 6:
         for c, o in pairs[:2]:
             out.samples.append({"suite": suite.name, "case": c, "impl_observation": o})
@@ -288,8 +288,9 @@ def run_suite(suite: Suite, cases, tag: str, out: Outcome, known_ids, label="gen
         if code & 8 and not code & 4:
             out.model_breaks.append(rec)
         if code & 2:
-            if code & 4 and not code & 1 and suite.kf_id in known_ids:
-                out.known.append((suite.kf_id, suite.name, c))
+            kid = suite.kf_ids.get(code >> 4)
+            if code & 4 and not code & 1 and kid in known_ids:
+                out.known.append((kid, suite.name, c))
             else:
                 out.violations.append(rec)
                 bad.append(rec)
@@ -310,7 +311,7 @@ def shrink_case(suite: Suite, rec, tag: str, known_ids, rounds=12):
         nxt = None
         for i in sorted(flags):
             code = flags[i]
-            if code & 2 and not (code & 4 and not code & 1 and suite.kf_id in known_ids):
+            if code & 2 and not (code & 4 and not code & 1 and suite.kf_ids.get(code >> 4) in known_ids):
                 nxt = {"suite": suite.name, "case": pairs[i][0], "impl_observation": pairs[i][1],
                        "code": code, "source": "shrunk"}
                 break
